@@ -82,7 +82,9 @@ StartFill(d, i, reach) ==
   LET a == d.hosts[i].addr IN
   IF a \in reach
     THEN [d EXCEPT !.pool = @ \cup {i}, !.pol = @ \cup {i}, !.down = @ \ {i}]
-    ELSE LET d1 == NodeDown([d EXCEPT !.pool = @ \cup {i}], a) IN [d1 EXCEPT !.pol = @ \cup {i}]
+    \* (pol = the hosts the policy offers: the policies list the host again after the failed fill,
+    \*  but their query plans leave out a host that is marked down)
+    ELSE LET d1 == NodeDown([d EXCEPT !.pool = @ \cup {i}], a) IN IF i \in d1.down THEN d1 ELSE [d1 EXCEPT !.pol = @ \cup {i}]
 
 RemoveHost(d, i) ==
   LET a == d.hosts[i].n2n
@@ -345,6 +347,15 @@ ControlLost(rows) ==
   /\ g' = Plain(DoRefreshG(GhostControlBack(g), rows, Filt))
   /\ d' = ApplyRefresh(StartFill(d, C0id, g.reach), rows, Filt, g.reach)
   /\ nref' = 1
+
+\* the keyspace metadata becomes (un)available and the cluster announces a schema change of the
+\* session keyspace (the driver drops its cached metadata): what the session has to know about
+\* the nodes does not change, and neither does the driver's picture
+SchemaChange(rows) ==
+  /\ g.ctl
+  /\ truth' = rows
+  /\ UNCHANGED <<g, d>>
+  /\ nref' = 0
 
 PropertyHolds == Viol(ObsOf(d, nref), g) = {}
 
